@@ -1,6 +1,10 @@
 //! p2sim — deterministic simulation with fault injection for plonky2 / starky (see /verif/DESIGN.md).
 pub mod core;
+pub mod c01;
 pub mod c12;
+pub mod pipeline;
+pub mod prog;
+pub mod refmath;
 
 use crate::core::{Report, Rng, Tier};
 use serde_json::Value;
@@ -19,6 +23,7 @@ pub struct Property {
 
 pub fn registry() -> Vec<Property> {
     vec![
+        Property { id: "C01", gen: c01::gen, exec: c01::exec, shrink: c01::shrink, runs: (1500, 40000) },
         Property { id: "C12", gen: c12::gen, exec: c12::exec, shrink: c12::shrink, runs: (3000, 60000) },
     ]
 }
